@@ -209,4 +209,32 @@ theorem depth_abs (m : Machine) : m.depth = (abs m).length := by
 theorem last_length_abs (m : Machine) : m.last.length = ((abs m).head (by simp [abs])).count := by
   simp [abs, count_abs]
 
+
+/-! ### Rejected operations are no-ops -/
+
+/-- Run a sequence; a rejected operation leaves the machine as it is (state.go: "If an error is
+returned, the state is not mutated") and the run continues. -/
+def smRunSkip (max : Nat) : Machine → List Kind → Machine
+  | m, [] => m
+  | m, k :: ks => match smStep max m k with
+    | .ok m' => smRunSkip max m' ks
+    | .error _ => smRunSkip max m ks
+
+/-- The operations of a sequence that are accepted when it is run from `m`. -/
+def smAccepted (max : Nat) : Machine → List Kind → List Kind
+  | _, [] => []
+  | m, k :: ks => match smStep max m k with
+    | .ok m' => k :: smAccepted max m' ks
+    | .error _ => smAccepted max m ks
+
+theorem smRun_accepted (max : Nat) (ks : List Kind) : ∀ m : Machine,
+    smRun max m (smAccepted max m ks) = .ok (smRunSkip max m ks) := by
+  induction ks with
+  | nil => intro m; rfl
+  | cons k ks ih =>
+    intro m
+    cases h : smStep max m k with
+    | ok m' => simp only [smAccepted, smRunSkip, smRun, h]; exact ih m'
+    | error e => simp only [smAccepted, smRunSkip, h]; exact ih m
+
 end JsonV.Lemmas.StateRun
